@@ -13,7 +13,13 @@ the option record and file-system facts.  Tie = correspondence, in a scratch tre
                   on random option combinations: exit / files written / stdout compared with what the model's
                   plan prescribes, the content being produced by the LIBRARY call the plan names
                   (`TagDatabase(**plan).get_json()`, `Recommendations(**plan)`, `cli_tag.main(**plan)`);
- * `module-entry` — once per run `python -m paroxython.cli …` with PYTHONPATH=$PAROXY_REPO.
+ * `module-entry` — once per run `python -m paroxython.cli …` with PYTHONPATH=$PAROXY_REPO;
+ * `collect-twice` — `collect`, then `collect` AGAIN onto the SAME output (explicit `-o` .json / .sqlite / .sql and the
+                  default DIRECTORY_db.json; in-process and `python -m paroxython.cli`) with a glob / skip selecting a
+                  smaller, larger, disjoint or equal set, after deleting / adding a source file, or from another
+                  directory: the file must hold exactly the database the library builds for the SECOND run (JSON text
+                  = `get_json()`, SQLite rows = rows of a fresh `write_sqlite`), listing exactly the files the second
+                  glob / skip select.
 
 docopt, glob, file I/O and the library calls themselves are outside the model (exercised only).
 """
@@ -1124,7 +1130,11 @@ def run(ctx):
         "directory contents × glob × skip (non-trivial: the skip pattern removes some but not all globbed files); "
         "collect / recommend / tag — random option combinations (short/long spellings) over a generated scratch tree with "
         "random presence of sibling taxonomy, databases and pipelines; non-trivial = the command runs (a plan, not an exit) "
-        "with at least one non-default option or file-system alternative in play"
+        "with at least one non-default option or file-system alternative in play; collect-twice — every output "
+        "(-o .json / .sqlite / .sql, default path) × every variation (second selection smaller / larger / disjoint / equal, "
+        "source deleted / added, other directory) of a second `collect` onto the output of a first one, over 2–4 tiny "
+        "programs, plus `python -m paroxython.cli` forms (and random extras in thorough); the output is compared with a "
+        "FRESH library export of the second run; non-trivial = the two runs do not select the same set"
     )
     ctx.cov["proved"] = [n.split(".")[-1] for n, ax in ctx.cov.get("theorems", {}).items() if ax != "DOES-NOT-CHECK"]
     ctx.cov["exercised_only"] = [
@@ -1132,6 +1142,8 @@ def run(ctx):
         "pathlib.glob, regex.fullmatch on the user's skip pattern, file reading/writing",
         "that the real entry points write/print exactly what the library call named by the plan produces "
         "(TagDatabase.get_json / write_sqlite, Recommendations.get_markdown / selection, cli_tag.main)",
+        "that a `collect` onto an output path which already holds the database of an earlier `collect` leaves exactly "
+        "the database of the later run (no stale programs / labels / taxa, none missing), for JSON and SQLite",
         "python -m paroxython.cli = paroxython.cli.main()",
     ]
     ctx.cov["trusted_base"] = core.BASE_TRUST + [
@@ -1207,6 +1219,20 @@ def replay(ctx, path):
                 except BaseException as exc:  # noqa
                     spec = {"exc": type(exc).__name__}
             print("spec  :", spec, "(what the library call named by the plan produces)")
+            return 0
+        if kind == "collect-twice":
+            case_root = root / "twice" / "case"
+            if obj.get("root"):  # absolute paths of the run that stored the case -> this scratch tree
+                for k in ("argv1", "argv2"):
+                    obj[k] = [a.replace(obj["root"], str(case_root)) for a in obj[k]]
+            spec = drv.call("c18.spec.names", names=[])
+            problem, report = twice_run(cli, drv, mdb, case_root, obj, spec)
+            print("run 1 :", obj["argv1"], "in", obj["cwd1"], "| sources:", sorted(k for k in obj["tree1"]))
+            print("run 2 :", obj["argv2"], "in", obj["cwd2"], "| sources:", sorted(k for k in obj["tree2"]))
+            print("impl  :", report.get("impl2"))
+            print("model :", report.get("model2"))
+            print("spec  :", report.get("spec"), "(a fresh library export for the second run)")
+            print("verdict:", problem or "the output holds exactly the second run's database")
             return 0
         if kind == "listing":
             d = root / "ls"
